@@ -56,6 +56,8 @@ class CallMixin:
     b = self.theory.classes.get((cref.module.relpath, cref.name))
     if b is None:
       raise Unsupported('class %s is not bound to a sort' % cref.name)
+    if b[0] == 'opaque':
+      return b[1](self, args, kwargs, node)
     if b[0] in ('adt', 'rec'):
       fields = cref.module.dataclass_fields(cref.name)
       if not fields:
@@ -383,6 +385,11 @@ class CallMixin:
       s = v.sort
       if isinstance(s, S.SetOf):
         return V(s, v.t)  # a copy: no shared origin
+      if isinstance(s, S.Seq) and v.t.get_id() in S._CONCATS:
+        a, b = S._CONCATS[v.t.get_id()]
+        sa, sb = self.to_set(V(s, a)), self.to_set(V(s, b))
+        x = s.elem.fresh('x')
+        return V(sa.sort, z3.Lambda([x], z3.Or(S.select(sa.t, x), S.select(sb.t, x))))
       if isinstance(s, S.Seq):
         ss = S.SetOf(s.elem)
         # a named function of the sequence (congruence: the same sequence gives the same
